@@ -120,6 +120,13 @@ Theorem C10_broadcast : forall newaxes a r,
     inb (sh (vals a)) (name_coord a r c') = true /\ get (vals r) c' = get (vals a) (name_coord a r c').
 Proof. exact broadcast_full. Qed.
 Print Assumptions C10_broadcast.
+(* reshape onto comma-free dimension names (the dropping of singleton dimensions, the transposition and the
+   insertion of new singleton dimensions that broadcasting and arithmetic rely on): the same closed form *)
+Theorem C10_reshape_plain : forall newdims a r,
+  ~ In EmptyString newdims -> WF a -> reshape_plain newdims a = Ok r ->
+  WF r /\ rearr a r /\ dims r = newdims.
+Proof. exact reshape_plain_rearr. Qed.
+Print Assumptions C10_reshape_plain.
 (* broadcast_arrays: every output is such a rearrangement of the input at the same position, all outputs are
    well-formed and have one common list of dimensions *)
 Theorem C10_broadcast_arrays : forall arrays l,
